@@ -28,7 +28,7 @@ def plan(tier, seed):
                 'floor': {'distinct_nontrivial': 5000, 'compiled_histories': 5000, 'api_histories': 3000,
                           'bound_before_assert': 4000, 'bound_after_assert': 4000, 'uses_in_same_clause': 6000,
                           'simultaneous_enumerations': 1000, 'use_after_backtracking': 5000}}
-    return {'n': 400000, 'deadline': 540,
+    return {'n': 900000, 'deadline': 540,
             'floor': {'distinct_nontrivial': 80000, 'compiled_histories': 80000, 'api_histories': 50000,
                       'bound_before_assert': 60000, 'bound_after_assert': 60000, 'uses_in_same_clause': 100000,
                       'simultaneous_enumerations': 15000, 'use_after_backtracking': 80000}}
